@@ -174,6 +174,8 @@ bld('AddToPlaylist::at', ['exists|p: usize| r.cmd_spec() == #[trigger] (%s)' % W
 # closed accessor spec fns (the parameters a chained builder keeps; public types only)
 ACC = """
 #[verifier::external_body]
+fn vx_string_str(s: &String) -> (r: &str) ensures r@ == s@ { s.as_str() }
+#[verifier::external_body]
 fn vx_arc_str(a: &std::sync::Arc<str>) -> (r: &str) ensures r@ == arc_str_view(*a) { a }
 #[verifier::external_body]
 fn vx_arc_eq(a: &std::sync::Arc<str>, b: &str) -> (r: bool) ensures r == (arc_str_view(*a) == b@) { a.as_ref() == b }
@@ -300,6 +302,32 @@ RESP['ListChannels'] = inline(
   before 0 "return Err(TypedResponseError::unexpected_field" <<<
                 proof { assert(vx_cv[vx_n].0 != "channel"@); }
   >>>""")
+
+# [C16 oracle] `tagtypes` answers one `tagtype: <tag name>` line per enabled tag; each value is a tag name (parsed as C20 says)
+TAGP = 'crate::tag::tag_parsed'
+RESP['GetEnabledTagTypes'] = inline(
+    'x@.len() == cv.len() && forall|i: int| 0 <= i < cv.len() ==> (#[trigger] cv[i]).0 == "tagtype"@ && %s(cv[i].1, x@[i])' % TAGP,
+    'exists|i: int| 0 <= i < cv.len() && ((#[trigger] cv[i]).0 != "tagtype"@ || cv[i].1.len() == 0 || !crate::tag::tag_text_ok(cv[i].1))',
+    extra="""  try all <<<
+proof { assert(vx_cv[vx_n].1.len() == 0 || !crate::tag::tag_text_ok(vx_cv[vx_n].1)); }
+  >>>
+  tokens N15 "let mut out = Vec::with_capacity(" "let mut out: Vec<Tag> = Vec::with_capacity("
+  tokens N10 "&*key != \\"tagtype\\"" "!vx_arc_eq(&key, \\"tagtype\\")"
+  tokens N10 "key.as_ref()," "vx_arc_str(&key),"
+  tokens N10 "Tag::try_from(&*value)" "Tag::try_from(vx_string_str(&value))"
+  closure in:map_err params="e: crate::tag::TagError" <<<
+-> (vx_e: TypedResponseError)
+  >>>
+""" + LOOP_COMMON % dict(key='tagtype') + """
+  loop 0 spec <<<
+            invariant
+                0 <= vx_n <= vx_cv.len(), vx_it.rest() == vx_cv.skip(vx_n), vx_cv == frame.cv(),
+                out@.len() == vx_n, forall|i: int| 0 <= i < vx_n ==> (#[trigger] vx_cv[i]).0 == "tagtype"@ && %s(vx_cv[i].1, out@[i]),
+            ensures vx_n == vx_cv.len(),
+  >>>
+  before 0 "return Err(TypedResponseError::unexpected_field" <<<
+                proof { assert(vx_cv[vx_n].0 != "tagtype"@); }
+  >>>""" % TAGP)
 
 def resp_members(c):
     """resp_ok / resp_err members + the directives of the `response` fn"""
